@@ -224,8 +224,15 @@ def run(P: Program, R: Report, tier: str) -> None:
             R.check(ok, "R06.6", issuer, r, "the batch is reserved (counter advanced past all candidates) before replacements are drawn",
                     "replacements are drawn while the counter still points inside the candidate batch: one call can return the same id twice",
                     via="cfg-dominance")
-        stores_back = any(isinstance(s, ast.Assign) and any(isinstance(t, ast.Subscript) for t in s.targets) for s in ast.walk(issuer.node))
-        R.check(stores_back, "R06.6", issuer, lp, "the checked id replaces the candidate in the returned list", "", via="syntax")
+        # the id that went through the retry loop is what ends up in the returned list
+        checked = {x.id for x in ast.walk(lp.test) if isinstance(x, ast.Name)}
+        stores_back = any(
+            (isinstance(s, ast.Assign) and any(isinstance(t, ast.Subscript) for t in s.targets) and isinstance(s.value, ast.Name) and s.value.id in checked)
+            or (isinstance(s, ast.Call) and call_name(s) == "append" and s.args and isinstance(s.args[0], ast.Name) and s.args[0].id in checked)
+            for s in ast.walk(issuer.node)
+        )
+        R.check(stores_back, "R06.6", issuer, lp, "the checked id is what ends up in the returned list",
+                "the value that passed the membership loop is not the one returned", via="dataflow")
     R.check(bool(reserve), "R06.6", issuer, issuer.node, "the counter is advanced by the batch size", "", via="syntax")
 
     # ---- R06.7 sibling agreement
